@@ -49,7 +49,9 @@ type Store struct {
 	Log  []Write
 	// OpLog records every attempted operation (for "replica saw no writes" style oracles)
 	Ops     []string
-	LatUs   int64 // base latency in microseconds
+	// Attempts records completed Put calls with their outcome
+	Attempts []Attempt
+	LatUs    int64 // base latency in microseconds
 	OnWrite func(w Write, body []byte)
 }
 
@@ -113,7 +115,28 @@ func (s *Store) Put(ctx context.Context, op, key string, body []byte) error {
 			cb(w, cp)
 		}
 	})
+	s.attempt(op, key, out)
 	return errFor(out, op, key)
+}
+
+// Attempt is one completed call (whatever its outcome), for oracles that need
+// to know when a request tried something.
+type Attempt struct {
+	Step    int
+	Op, Key string
+	Task    string
+	Fault   string
+	Applied bool
+}
+
+func (s *Store) attempt(op, key string, out simrt.Outcome) {
+	a := Attempt{Op: op, Key: key, Task: simrt.TaskName(), Fault: out.Fault, Applied: out.Applied}
+	if sim := simrt.Current(); sim != nil {
+		a.Step = sim.Step()
+	}
+	s.mu.Lock()
+	s.Attempts = append(s.Attempts, a)
+	s.mu.Unlock()
 }
 
 // Delete removes key (no error if absent, like S3).
